@@ -1,6 +1,6 @@
 ---------------------------- MODULE MC_CanvasImpl ----------------------------
-(* Design-level check for C02 / C03 / C05 / C06 / C07: every properly nested  *)
-(* history of clip and layer pushes (rectangles overlapping, disjoint,        *)
+(* Design-level check for C02 / C03 / C05 / C06 / C07: every history (pops of  *)
+(* the two stacks may cross) of clip and layer pushes (rectangles overlapping, disjoint,        *)
 (* inverted, off-surface, huge; two clip paths) to depth D, followed by one   *)
 (* draw (masked fill of any rectangle, the mask-less rectangle path, or       *)
 (* pop_layer), satisfies ClipRefines, LayersAllocatable, NoPanic, AccessesOK. *)
@@ -17,12 +17,17 @@ Build ==
      \/ \E id \in {"p1", "p2"} : id \notin EffMask /\ PushClipPath(id) /\ ord' = Append(ord, "c") /\ UNCHANGED lstack
      \/ PushLayer /\ ord' = Append(ord, "l") /\ UNCHANGED <<cstack, pstack>>
   /\ UNCHANGED <<phase, acc, call>>
+\* CROSS: the clip stack and the layer stack are popped independently (pop_clip of a clip pushed
+\* before the innermost open layer, pop_layer under clips pushed inside it)
+CROSS == EnvInt("CROSS", 1) = 1
+RemoveLast(s, kd) == LET i == CHOOSE j \in 1..Len(s) : s[j] = kd /\ \A m \in (j + 1)..Len(s) : s[m] # kd
+                     IN SubSeq(s, 1, i - 1) \o SubSeq(s, i + 1, Len(s))
 Pop ==
-  /\ phase = "build" /\ ord # <<>> /\ ord[Len(ord)] = "c"
-  /\ PopClip /\ ord' = SubSeq(ord, 1, Len(ord) - 1)
+  /\ phase = "build" /\ ord # <<>> /\ (ord[Len(ord)] = "c" \/ (CROSS /\ \E j \in 1..Len(ord) : ord[j] = "c"))
+  /\ PopClip /\ ord' = RemoveLast(ord, "c")
   /\ UNCHANGED <<lstack, phase, acc, call>>
 DoDraw == (\E b \in DrawBoxes, m \in BOOLEAN : Draw(b, m)) /\ UNCHANGED ord
-DoPopLayer == ord # <<>> /\ ord[Len(ord)] = "l" /\ PopLayerDraw /\ UNCHANGED ord
+DoPopLayer == ord # <<>> /\ (ord[Len(ord)] = "l" \/ (CROSS /\ lstack # <<>>)) /\ PopLayerDraw /\ UNCHANGED ord
 MCNext == Build \/ Pop \/ DoDraw \/ DoPopLayer
 \* layers must be allocatable whenever they exist
 AllocOK == LayersAllocatable
